@@ -146,6 +146,12 @@ func (c *controller) SetBalancer(l log.Logger, name string, svcRo *v1.Service, _
 	if !reflect.DeepEqual(toWrite, svcRo) {
 		if err := c.client.UpdateStatus(svc); err != nil {
 			level.Error(l).Log("op", "updateServiceStatus", "error", err, "msg", "failed to update service")
+			if syncStateRes == controllers.SyncStateReprocessAll {
+				// The allocation is already released and the retry would no longer see that it was:
+				// ask for the full re-sync now (it retries this write too), another service may be
+				// waiting for what this one held.
+				return controllers.SyncStateReprocessAll
+			}
 			return controllers.SyncStateError
 		}
 		level.Info(l).Log("event", "serviceUpdated", "msg", "updated service object")
